@@ -332,7 +332,7 @@ def run(ctx):
         c['cm'] = compile_model(c['spec'], c['code'], build_pdf(c['spec'], c['code']))
         c['_cfg'] = [tuple(body['config'])]
         cases.append(c)
-    ncase = ctx.n(40, 500)
+    ncase = ctx.n(40, 300)
     cases += [make_case(rng, k) for k in range(ncase)]
     ctx.log('generated %d cases' % len(cases))
     # exact gradients in Coq (started first: they do not depend on the implementation)
